@@ -55,6 +55,10 @@ type Ctx struct {
 	// ResultPath is where the worker writes its result (set by WorkerMain; used by GiveUp).
 	ResultPath string
 	runaways   int
+	// OnlyWithHistory: when replaying one case (Only), the cases before it are executed as well (properties whose
+	// verdict on a case may depend on what the process did before, e.g. state kept between reader calls).
+	OnlyWithHistory bool
+	onlyDone        bool
 
 	mu       sync.Mutex
 	log      *os.File
@@ -144,8 +148,11 @@ func (c *Ctx) Case(id string, input string, f func()) {
 	ord := c.ordinal
 	c.ordinal++
 	c.mu.Unlock()
-	if c.Only != "" && c.Only != id {
+	if c.Only != "" && c.Only != id && !(c.OnlyWithHistory && !c.onlyDone) {
 		return
+	}
+	if c.Only == id {
+		c.onlyDone = true
 	}
 	if ord < c.SkipTo {
 		return
@@ -389,6 +396,7 @@ type Property struct {
 	Assume     []string
 	TimeoutS   func(tier string) int // per worker wall watchdog
 	NonTrivial string                // name of the distinct set that is reported as distinct_nontrivial
+	History    bool                  // a replay of one case also executes the cases before it (see Ctx.OnlyWithHistory)
 }
 
 var registry = map[string]*Property{}
